@@ -296,7 +296,9 @@ func execC04a(ctx *Ctx, in *Input) *Result {
 		for c := range cands {
 			cells = append(cells, c)
 		}
-		sort.Slice(cells, func(i, j int) bool { return cells[i].q < cells[j].q || cells[i].q == cells[j].q && cells[i].ysym < cells[j].ysym })
+		sort.Slice(cells, func(i, j int) bool {
+			return cells[i].q < cells[j].q || cells[i].q == cells[j].q && cells[i].ysym < cells[j].ysym
+		})
 		for _, c := range cells {
 			cs := cands[c]
 			if len(cs) == 1 {
@@ -497,7 +499,7 @@ func candStr(g *ref.Grammar, cs []ref.Cand) string {
 func init() {
 	Register(&Checker{
 		ID: "C19", Level: "fault_enumeration", Engine: "A",
-		Rule: "fault = the pipeline stage at which the input makes generation fail, enumerated from the code: lexical error, missing %%, syntax error in the rules, unterminated action / comment, undefined symbol, %type'd nonterminal without rules, unproductive nonterminal, $n beyond the rule, $0, >= 2000 states; each placed early or late in the file, x 5 output variants x 2 map-order schedules, with a pre-existing output file holding sentinel bytes; plus successful runs. Oracle: bytes of the file + the recorded history of file-system effects on the path. distinct_nontrivial = distinct (text, variant) pairs.",
+		Rule:     "fault = the pipeline stage at which the input makes generation fail, enumerated from the code: lexical error, missing %%, syntax error in the rules, unterminated action / comment, undefined symbol, %type'd nonterminal without rules, unproductive nonterminal, $n beyond the rule, $0, >= 2000 states; each placed early or late in the file, x 5 output variants x 2 map-order schedules, with a pre-existing output file holding sentinel bytes; plus successful runs. Oracle: bytes of the file + the recorded history of file-system effects on the path. distinct_nontrivial = distinct (text, variant) pairs.",
 		NumCases: func(ctx *Ctx) int { return fixedCases(ctx, 720, 12000) },
 		Gen:      genC19, Exec: execC19,
 		FaultKeys: []string{"fault_fired_lexical", "fault_fired_no-section", "fault_fired_syntax-rule", "fault_fired_undefined", "fault_fired_norules", "fault_fired_unproductive",
@@ -508,7 +510,7 @@ func init() {
 	c04batches := func(ctx *Ctx) int { return fixedCases(ctx, 16, 400) }
 	Register(&Checker{
 		ID: "C04", Level: "exploration", Engine: "A+B",
-		Rule: "two kinds of cases. (a) cell level: (grammar with precedence, K map-order schedules); operator tables (1-6 levels, random associativity, prefix operators via %prec), textbook conflict grammars, random CFGs with random %left/%right/%nonassoc and %prec; for every table cell with exactly two candidate actions (taken from the same run's transitions and lookaheads) the dense-table entry is compared with the documented resolution. (b) expression level: batches of 6 operator tables compiled in all 5 variants; random expressions (depth <= 5) are parsed and the returned fully parenthesised string / the syntax error and its position are compared with a precedence-climbing reference that only knows the declarations. distinct_nontrivial = distinct grammars.",
+		Rule:     "two kinds of cases. (a) cell level: (grammar with precedence, K map-order schedules); operator tables (1-6 levels, random associativity, prefix operators via %prec), textbook conflict grammars, random CFGs with random %left/%right/%nonassoc and %prec; for every table cell with exactly two candidate actions (taken from the same run's transitions and lookaheads) the dense-table entry is compared with the documented resolution. (b) expression level: batches of 6 operator tables compiled in all 5 variants; random expressions (depth <= 5) are parsed and the returned fully parenthesised string / the syntax error and its position are compared with a precedence-climbing reference that only knows the declarations. distinct_nontrivial = distinct grammars.",
 		NumCases: func(ctx *Ctx) int { return c04batches(ctx) + fixedCases(ctx, 6000, 60000) },
 		Gen: func(ctx *Ctx, i int) *Input {
 			if isB, k := mixCases(c04batches(ctx), fixedCases(ctx, 6000, 60000), i); isB {
